@@ -53,6 +53,13 @@ func main() {
 			}
 		}
 		fmt.Println("dec roots", len(r.Dec), k, "decReach", len(r.DecReach), "acc", len(r.Acc), "accReach", len(r.AccReach), "ser", len(r.Ser), "serReach", len(r.SerReach), "declayers", len(r.DecLayerTs))
+	case "candscan":
+		p, err := core.Load("/repo", core.InScope)
+		if err != nil {
+			fmt.Println(err)
+			os.Exit(2)
+		}
+		props.CandScan(p)
 	case "list":
 		var ids []string
 		for id := range props.Registry {
